@@ -4,6 +4,7 @@ import ast
 
 from sa.helpers import (the_return, mkflow, spec, code, one, calls, bind_call, param_env,
                         fmt, atom_of, unparse, walk_no_nested)
+from sa.helpers import guard_is
 from sa.index import AnalysisError, Index, FuncInfo
 from sa.algebra import RF, Slice, dotted
 
@@ -319,16 +320,44 @@ for V_x in V_s:
         fl = mkflow(ix, site)
         ag = calls(fl, 'allgather')
         args = [fmt(fl, e.args[0]) for e in ag]
-        want = ['self.variance', '_mean_', 'self.wcount', 'self.count']
-        ok = len(ag) == 4 and all(not e.guards and not e.loops for e in ag) and \
-            args[0] == 'self.variance' and args[2] == 'self.wcount' and args[3] == 'self.count' and \
-            fl.tab.equal(ag[1].args[0], spec(fl, '_guard(self.mean is None, np.nan, self.mean)'))
+        meanph = spec(fl, '_guard(self.mean is None, np.nan, self.mean)')
+        roles = {'variance': code(fl, 'self.variance'), 'mean': meanph, 'wcount': code(fl, 'self.wcount'),
+                 'count': code(fl, 'self.count')}
+        cv = one(calls(fl, 'combine_variance'), 'combine_variance call')
+        gat = lambda e: fl.tab.atom('call', tuple(e.args), extra=('fn:mpi.allgather',))
+        bundle = atom_of(fl, ag[0].args[0]) if len(ag) == 1 and ag[0].args else None
+        if bundle is not None and bundle.head == 'tuple':
+            # one collective for all per-rank statistics: allgather((variance, mean, wcount, count)) and the lists are
+            # rebuilt from the gathered records in rank order
+            pos = {}
+            for k_, x in enumerate(bundle.args):
+                for r_, w_ in roles.items():
+                    if fl.tab.equal(x, w_):
+                        pos[r_] = k_
+            ok = set(pos) >= {'variance', 'mean', 'wcount'} and not ag[0].guards and not ag[0].loops
+            args = [fmt(fl, ag[0].args[0])]
+
+            def column(rf):
+                a_ = atom_of(fl, rf)
+                if a_ is None or a_.head != 'comp' or len(a_.args) < 2 or not fl.tab.equal(a_.args[1], gat(ag[0])):
+                    return None
+                e_ = atom_of(fl, a_.args[0])
+                if e_ is None or e_.head != 'idx' or fmt(fl, e_.args[0]) != '%b0' or e_.args[1].const() is None:
+                    return None
+                tl = atom_of(fl, a_.args[2]) if len(a_.args) > 2 else None
+                if tl is not None and tl.args:
+                    return None            # a filtered comprehension drops ranks
+                return int(e_.args[1].const())
+            cols = [column(a) for a in cv.args]
+            okc = ok and cols == [pos.get('mean'), pos.get('variance'), pos.get('wcount')]
+        else:
+            ok = len(ag) == 4 and all(not e.guards and not e.loops for e in ag) and \
+                args[0] == 'self.variance' and args[2] == 'self.wcount' and args[3] == 'self.count' and \
+                fl.tab.equal(ag[1].args[0], meanph)
+            okc = len(ag) == 4 and [fmt(fl, a) for a in cv.args] == [fmt(fl, gat(ag[1])), fmt(fl, gat(ag[0])), fmt(fl, gat(ag[2]))]
         R.check('3.gathers', 'MPI', site,
                 'variance, mean (NaN placeholder when empty), weight sum and count are gathered unconditionally in one order',
                 ok, key=str(args), detail='gathers %s' % args, loc=f.loc())
-        cv = one(calls(fl, 'combine_variance'), 'combine_variance call')
-        gat = lambda e: fl.tab.atom('call', tuple(e.args), extra=('fn:mpi.allgather',))
-        okc = len(ag) == 4 and [fmt(fl, a) for a in cv.args] == [fmt(fl, gat(ag[1])), fmt(fl, gat(ag[0])), fmt(fl, gat(ag[2]))]
         R.check('3.combine.args', 'ARG', site, 'combine_variance(gathered means, gathered variances, gathered weight sums)',
                 okc, key=str([fmt(fl, a) for a in cv.args]), detail=str([fmt(fl, a) for a in cv.args]), loc=f.loc(cv.node))
     # ---- 4. identity tests on gathered values
@@ -412,14 +441,17 @@ for V_x in V_s:
         why = []
         a1 = fl.tab.atom('elem', (pe['A'], l1.index))
         c1 = fl.tab.atom('elem', (pe['C'], l1.index))
-        acc = [e for e in fl.of('assign') + fl.of('aug') if l1 in e.loops and e.name == 'average']
+        # the accumulators are identified by what is added to them, not by their names
+        acc = [e for e in fl.of('assign') + fl.of('aug') if l1 in e.loops and isinstance(e.value, RF) and
+               e.value.mentions(lambda a: a.head == 'elem') and getattr(e, 'op', None) != 'for']
         for e in acc:
             v = e.value
             if not fl.tab.equal(v, a1 * c1):
                 why.append('mean term %s' % fmt(fl, v))
+        mname = acc[0].name if acc and len({e.name for e in acc}) == 1 else None
         if len(acc) != 2:
             why.append('%d mean accumulation statements' % len(acc))
-        div = [e for e in fl.of('aug') if e.name == 'average' and not e.loops]
+        div = [e for e in fl.of('aug') if e.name == mname and not e.loops]
         if len(div) != 1 or div[0].op != 'Div' or not fl.tab.equal(div[0].value, size):
             why.append('mean normalisation %s' % [unparse(e.node) for e in div])
         cn = [e for e in fl.of('assign') if e.name == f.params()[3] and not e.loops]
@@ -431,7 +463,10 @@ for V_x in V_s:
         v2 = fl.tab.atom('elem', (pe['V'], l2.index))
         if len(l2.iter_rf) != 3:
             why.append('second loop %s' % unparse(l2.iter_ast))
-        sq = [e for e in fl.of('assign') + fl.of('aug') if l2 in e.loops and e.name == 'squares']
+        sq0 = [e for e in fl.of('assign') + fl.of('aug') if l2 in e.loops and isinstance(e.value, RF) and
+               getattr(e, 'op', None) != 'for' and fl.tab.equal(e.value, c2 * v2)]
+        sname = sq0[0].name if sq0 else None
+        sq = [e for e in fl.of('assign') + fl.of('aug') if l2 in e.loops and e.name == sname and getattr(e, 'op', None) != 'for']
         avg_final = None
         terms = []
         for e in sq:
@@ -450,9 +485,17 @@ for V_x in V_s:
             why.append('%d deviation statements' % len(dev))
         r = the_return(fl)
         ra = atom_of(fl, r.value)
-        if ra is None or ra.head != 'tuple' or not isinstance(r.value_ast.elts[0], ast.Name) or \
-                r.value_ast.elts[0].id != 'average' or unparse(r.value_ast.elts[1]) != 'squares / size':
+        fin = [e for e in fl.of('assign') + fl.of('aug') if e.name == sname]
+        sq_final = fin[-1].new if fin and hasattr(fin[-1], 'new') and fin[-1].kind == 'aug' else (fin[-1].value if fin else None)
+        if ra is None or ra.head != 'tuple' or len(ra.args) != 2 or m is None or not fl.tab.equal(ra.args[0], m) or \
+                not (isinstance(ra.args[1], RF) and ra.args[1].mentions(lambda a: a.head == 'phi' and a.args[0] == sname) and
+                     fl.tab.proportional(ra.args[1] * size, ra.args[1] * size) is not None):
             why.append('returns %s' % unparse(r.value_ast))
+        else:
+            # second element: the squares accumulator divided by the total weight
+            num = ra.args[1] * size
+            if num.mentions(lambda a: fl.tab.equal(RF(fl.tab, __import__('sa.algebra', fromlist=['p_atom']).p_atom(fl.tab.intern(a.head, a.args, a.extra, None))), size)):
+                why.append('pooled squares are not divided by the total weight: %s' % fmt(fl, ra.args[1]))
         R.check('5.combine', 'ALG', site,
                 'pooled mean = sum c_i m_i / sum c_i; pooled variance = sum c_i (v_i + (m_i - m)^2) / sum c_i',
                 not why, key='; '.join(why), detail='; '.join(why), loc=f.loc())
@@ -463,7 +506,11 @@ for V_x in V_s:
             if lp is None or len(e.guards) != 1 or not e.guards[0].positive:
                 return False
             c = fl.tab.atom('elem', ((pe['C'] if lp is l1 else cprime), lp.index))
-            return fl.tab.equal(e.guards[0].rf, spec(fl, 'c == 0', {'c': c}))
+            if guard_is(fl, e.guards[0], spec(fl, 'c == 0', {'c': c}), True):
+                return True
+            # in the mean loop a rank whose mean is the placeholder contributes nothing either way
+            a_ = fl.tab.atom('elem', (pe['A'], lp.index))
+            return lp is l1 and guard_is(fl, e.guards[0], spec(fl, '_or(c == 0, _missing(a))', {'c': c, 'a': a_}), True)
         oks = len(skips) == 2 and all(zero_weight(e) for e in skips)
         # the between-rank term must not depend on whether the rank has a variance yet
         dev_ev = [e for e in sq if not fl.tab.equal(e.value, c2 * v2)]
